@@ -36,7 +36,7 @@ type PeerPlan struct {
 	Chunks     []int   `json:"chunks,omitempty"`    // sizes of successive writes; 0 = everything available
 	Delays     []int   `json:"delays,omitempty"`    // fake-time units (8ns) before each write
 	ReadChunks []int   `json:"read_chunks,omitempty"`
-	Yields     []int   `json:"yields,omitempty"` // runtime.Gosched() calls before successive pipe reads / writes
+	Yields     []int   `json:"yields,omitempty"` // yields (yieldpt.Yield) before successive pipe reads / writes
 	PipeCap    int     `json:"pipe_cap"`         // 0 rendezvous; >0 bytes; <0 unbounded
 	Flush      string  `json:"flush,omitempty"`  // "", "each", "eof", "n:<bytes>"
 	Faults     []Fault `json:"faults,omitempty"`
